@@ -618,6 +618,24 @@ func space(job int) {
 
 // manyTracks: track numbers beyond one byte: 300 tracks of two events each,
 // selections and explicit port entries for tracks 0, 255, 256, 257 and 299.
+// longTracks: thousands of events per track (what a player counts, batches or
+// sorts while it runs), one to three tracks, every tick pattern, two maps.
+func longTracks() {
+	n := ctx.Pick(3000, 30000)
+	for _, ns := range [][]int{{n}, {n / 2, n / 2}, {n / 2, 0, n / 3}, {17, n}} {
+		for _, pat := range patNames {
+			for _, wm := range []bool{false, true} {
+				tempoLayout = 0
+				data, exp := build(ns, pat, wm)
+				for _, mp := range []map[int]string{{-1: "A"}, {0: "A", -1: "B"}} {
+					play(data, exp, ns, pat, wm, nil, mp)
+					ctx.Add("long_track_plays", 1)
+				}
+			}
+		}
+	}
+}
+
 func manyTracks() {
 	const nt = 300
 	s := smf.NewSMF1()
@@ -781,6 +799,7 @@ func main() {
 	ctx.Assume("order among different tracks at equal times is not judged; sysex events are neither required nor forbidden; scheduled time = exact integral of the tempo events found in the file by the reference parser, less one microsecond per tempo segment (the rounding C11 allows); order across tracks is judged with the library's own TimeAt")
 	ctx.Jobs("play", len(counts), func(j int) { space(j) })
 	ctx.Jobs("many-tracks", 1, func(int) { manyTracks() })
+	ctx.Jobs("long-tracks", 1, func(int) { longTracks() })
 	ctx.Sample(map[string]interface{}{"events_per_track": []int{13, 7}, "pattern": "one-tick", "selection": "all", "port_map": "default->A, track 1->B"})
 	ctx.Guard(ctx.NontrivialCount() > 1000, "too few multi-track plays")
 	ctx.Finish("files of 1..3 tracks with per-track event counts from {0,1,2,3,7,13,20}, 5 tick patterns, with and without interspersed meta/tempo events; every subset of tracks as selection and every map {default, track 0..2} -> {absent, A, B}; MultiPlay on a virtual clock against a reference player; non-trivial = plays with at least two played tracks of more than one event")
